@@ -65,7 +65,7 @@ def h_rt(cfg):
     strict = cfg['strict']
     sorts = cfg['sorts']
     procs = cfg['procs']
-    t0 = sym_num('t0', sort_of(sorts, 0), 0) if cfg.get('sym_t0') else 0
+    t0 = sym_num('t0', sort_of(sorts, 0), 0) if cfg.get('sym_t0') else cfg.get('t0', 0)
     delays = {}
     i = 1
     for pi, n in enumerate(procs):
@@ -219,6 +219,10 @@ def jobs(tier, seed):
                                'idle_before_run': True, 'sync_at': sync_at}})
     js.append({'harness': 'rt', 'weight': 20,
                'cfg': {'procs': [1, 1], 'factor': '1', 'strict': True, 'sorts': 'int', 'early': 1, 'sym_t0': True}})
+    # very large integer clocks (beyond 2**53: exact in ints, not in floats)
+    for strict in (True, False):
+        js.append({'harness': 'rt', 'weight': 20,
+                   'cfg': {'procs': [2], 'factor': '1', 'strict': strict, 'sorts': 'int', 'early': 1, 't0': 2 ** 60 + 1}})
     # driven through run(): one call; several calls with wall time passing and/or sync() in between
     plans = [['idle', 'run'], ['run-until', 'idle', 'run'], ['run-until', 'idle', 'sync', 'run'], ['run-until', 'sync', 'idle', 'run']]
     if tier != 'quick':
